@@ -275,6 +275,12 @@ func (ex *Exec) runParallel() {
 		if !changed {
 			break
 		}
+		if mp := ex.h.Opts["maxpasses"]; mp != "" && fmt.Sprint(pass+1) == mp {
+			// stated bound: reference-value chains alternating between threads deeper than this are
+			// not explored (each thread performs one operation: deeper chains are causally impossible)
+			ex.sess.res.PassBoundHit++
+			break
+		}
 		if pass == 5 {
 			panic(unsupported("shared-location fix point did not converge in 6 passes"))
 		}
@@ -294,13 +300,26 @@ func (ex *Exec) exploreThread(t int) {
 	spec := c.threads[t]
 	spec.Paths = nil
 	pending := [][]int{{}}
+	explored := 0
+	var seenSig map[string]bool
 	savedCtl := ex.ctl
 	savedPC := ex.sess.pcMark()
 	defer func() { ex.ctl = savedCtl }()
 	for len(pending) > 0 {
 		prefix := pending[len(pending)-1]
 		pending = pending[:len(pending)-1]
-		if len(spec.Paths) > 400 {
+		limit := 400
+		ex.steps = 0
+		if ex.h.Opts["race"] == "1" {
+			explored++
+			if explored > 600 {
+				// stated bound of the race analysis: at most 600 control paths per thread are explored
+				ex.sess.res.RacePathCaps++
+				break
+			}
+			limit = 20000
+		}
+		if len(spec.Paths) > limit {
 			if verboseLog {
 				for i, p := range spec.Paths {
 					if i%40 == 0 {
@@ -366,6 +385,30 @@ func (ex *Exec) exploreThread(t int) {
 		c.cur.Trace = append([]int{}, ex.ctl.trace...)
 		c.cur.PC = ex.sess.pcSince(savedPC)
 		c.cur.Classes = append([]classPred{}, ex.classes...)
+		if ex.h.Opts["race"] == "1" {
+			// race analysis: control paths with the same sequence of synchronisation and memory events
+			// are equivalent; keep one representative (its data path condition is dropped: sound for
+			// proving race freedom, a reported race is on a path whose data feasibility is unchecked)
+			var sig strings.Builder
+			for _, e := range c.cur.Events {
+				sig.WriteString(e.Kind + ":" + e.Loc + ";")
+			}
+			sig.WriteString(c.cur.End)
+			if seenSig == nil {
+				seenSig = map[string]bool{}
+			}
+			if seenSig[sig.String()] {
+				continue
+			}
+			seenSig[sig.String()] = true
+			c.cur.PC = nil
+			for _, e := range c.cur.Events {
+				e.RV = nil // values are irrelevant for the schedule-only race query
+				if e.Kind == "rmw" || e.Kind == "w" {
+					// keep WV nil-safe: writes need no value either
+				}
+			}
+		}
 		spec.Paths = append(spec.Paths, c.cur)
 	}
 	ex.sess.pcReset(savedPC)
@@ -431,10 +474,6 @@ func (ex *Exec) sharedLoad(p *Ptr, cur Value, atomic bool) Value {
 	loc := ex.locKey(p)
 	c := ex.conc
 	needEvent := ex.foreignWriter(loc) || (c.mode == "final" && ex.anyWriter(loc))
-	if c.raceMode && !atomic {
-		// race analysis: every plain access to a shared location is recorded
-		ex.addEvent(&Event{Kind: "pr", Loc: loc, Plain: true})
-	}
 	if !needEvent && p.Obj.Foreign {
 		// content of an object allocated by another thread whose writes are not known yet in this
 		// pass of the fix point: abandon the path, another pass follows
@@ -1246,6 +1285,10 @@ func (ex *Exec) composeAndCheck() {
 			rec(t+1, append(acc, p))
 		}
 	}
+	if ex.h.Opts["race"] == "1" {
+		ex.raceBySites(final, finalPC)
+		return
+	}
 	rec(1, nil)
 	if verboseLog {
 		for t := 1; t <= nThreads; t++ {
@@ -1601,6 +1644,9 @@ func (ex *Exec) checkCombo(combo []*ThreadPath, final *ThreadPath, finalPC []*Te
 		return
 	}
 	res.FeasibleCombos++
+	if ex.h.Opts["race"] == "1" {
+		ex.raceQueries(solver, r, events, paths)
+	}
 	for _, p := range paths {
 		if p != nil {
 			for _, l := range p.Reach {
@@ -1813,4 +1859,283 @@ func (ex *Exec) concCandidate(solver *Solver, r *Renderer, a recAssert, events [
 	cand.Replay = "confirmed"
 	cand.ReplayOut = "schedule found by the solver for the event-order encoding of the real SSA (no native scheduler control available)\n" + strings.Join(cand.Conc.Order, "\n") + "\n"
 	return cand
+}
+
+// raceQueries: predictive data-race analysis.  Two conflicting accesses (same location, different
+// threads, at least one write, not both atomic) race iff some consistent schedule makes them
+// adjacent (nothing orders one before the other through locks or atomics).
+func (ex *Exec) raceQueries(solver *Solver, r *Renderer, events []*Event, paths []*ThreadPath) {
+	c := ex.conc
+	res := ex.sess.res
+	isW := func(e *Event) bool { return e.Kind == "w" || e.Kind == "rmw" || e.Kind == "mapw" }
+	isAcc := func(e *Event) bool { return isW(e) || e.Kind == "r" || e.Kind == "mapr" }
+	finalT := len(c.threads)
+	type pair struct{ a, b *Event }
+	var pairs []pair
+	for i, a := range events {
+		if !isAcc(a) || a.Thread >= finalT {
+			continue
+		}
+		for _, b := range events[i+1:] {
+			if !isAcc(b) || b.Thread >= finalT || a.Thread == b.Thread || a.Loc != b.Loc {
+				continue
+			}
+			if !isW(a) && !isW(b) {
+				continue
+			}
+			if a.Atomic && b.Atomic {
+				continue
+			}
+			pairs = append(pairs, pair{a, b})
+		}
+	}
+	if len(pairs) == 0 {
+		return
+	}
+	res.RacePairs += len(pairs)
+	st := ex.sess.stat("data-race-free", "race")
+	st.Reached++
+	st.Posed++
+	st.Nontrivial++
+	st.Pos["(all conflicting access pairs)"] = true
+	var alts []string
+	for _, p := range pairs {
+		alts = append(alts, fmt.Sprintf("(= %s (+ %s 1))", ex.clk(p.a), ex.clk(p.b)), fmt.Sprintf("(= %s (+ %s 1))", ex.clk(p.b), ex.clk(p.a)))
+	}
+	solver.Send("(push 1)\n(assert (or " + strings.Join(alts, " ") + "))\n")
+	t0 := time.Now()
+	ans := solver.CheckSat(ex.sess.oblTO)
+	res.Queries++
+	res.SolverTime += time.Since(t0)
+	st.SolverMs += float64(time.Since(t0)) / 1e6
+	if ans == "unsat" {
+		solver.Send("(pop 1)\n")
+		st.Discharged++
+		return
+	}
+	if ans != "sat" {
+		if !solver.dead {
+			solver.Send("(pop 1)\n")
+		}
+		res.Inconclusive = append(res.Inconclusive, fmt.Sprintf("%s: race query: solver answered %s", ex.h.Name, firstLine(ans)))
+		return
+	}
+	// which pair is adjacent in the model?
+	var names []string
+	for _, p := range pairs {
+		names = append(names, ex.clk(p.a), ex.clk(p.b))
+	}
+	vals := solver.GetValues(names)
+	var racy *pair
+	for i := range pairs {
+		var x, y int
+		fmt.Sscanf(strings.TrimSpace(vals[ex.clk(pairs[i].a)]), "%d", &x)
+		fmt.Sscanf(strings.TrimSpace(vals[ex.clk(pairs[i].b)]), "%d", &y)
+		if x-y == 1 || y-x == 1 {
+			racy = &pairs[i]
+			break
+		}
+	}
+	a := recAssert{ID: "data-race-free", Kind: "race", Pos: "?", Msg: "data race"}
+	if racy != nil {
+		a.Pos = racy.a.Pos + " / " + racy.b.Pos
+		a.Msg = fmt.Sprintf("data race on %s: %s %s at %s [%s]  vs  %s %s at %s [%s]", racy.a.Loc, c.threads[racy.a.Thread].Name, racy.a.Kind, racy.a.Pos, strings.Join(racy.a.Held, ","),
+			c.threads[racy.b.Thread].Name, racy.b.Kind, racy.b.Pos, strings.Join(racy.b.Held, ","))
+	}
+	cand := ex.concCandidate(solver, r, a, events, paths)
+	solver.Send("(pop 1)\n")
+	if racy != nil {
+		cand.Classes["race_site:"+siteOf(racy.a.Pos)+"|"+siteOf(racy.b.Pos)] = true
+	}
+	if st.Sample == "" {
+		st.Sample = a.Msg
+	}
+	cand.Known = matchKnown(ex.sess.known, cand)
+	res.Candidates = append(res.Candidates, cand)
+}
+
+// siteOf reduces "file.go:123" to "file.go" (known findings must not depend on line numbers).
+func siteOf(pos string) string {
+	if i := strings.LastIndex(pos, ":"); i >= 0 {
+		return pos[:i]
+	}
+	return pos
+}
+
+// raceBySites: one solver query per distinct pair of conflicting access sites (location, kind,
+// locks held) of two different threads, posed on a representative combination of control paths.
+func (ex *Exec) raceBySites(final *ThreadPath, finalPC []*Term) {
+	c := ex.conc
+	res := ex.sess.res
+	nThreads := len(c.threads) - 1
+	isW := func(e *Event) bool { return e.Kind == "w" || e.Kind == "rmw" || e.Kind == "mapw" }
+	isAcc := func(e *Event) bool { return isW(e) || e.Kind == "r" || e.Kind == "mapr" }
+	type site struct {
+		path *ThreadPath
+		ev   *Event
+	}
+	sites := make([]map[string]site, nThreads+1)
+	for t := 1; t <= nThreads; t++ {
+		sites[t] = map[string]site{}
+		for _, p := range c.threads[t].Paths {
+			for _, e := range p.Events {
+				if !isAcc(e) {
+					continue
+				}
+				k := fmt.Sprintf("%s|%s|%v|%s", e.Kind, e.Loc, e.Atomic, strings.Join(e.Held, ","))
+				if _, ok := sites[t][k]; !ok {
+					sites[t][k] = site{p, e}
+				}
+			}
+		}
+	}
+	st := ex.sess.stat("data-race-free", "race")
+	for _, l := range final.Reach {
+		res.Reaches[l]++
+	}
+	for t1 := 1; t1 <= nThreads; t1++ {
+		for t2 := t1 + 1; t2 <= nThreads; t2++ {
+			if c.threads[t1].Parent != 0 || c.threads[t2].Parent != 0 {
+				continue
+			}
+			k1s := make([]string, 0, len(sites[t1]))
+			for k := range sites[t1] {
+				k1s = append(k1s, k)
+			}
+			sort.Strings(k1s)
+			k2s := make([]string, 0, len(sites[t2]))
+			for k := range sites[t2] {
+				k2s = append(k2s, k)
+			}
+			sort.Strings(k2s)
+			for _, ka := range k1s {
+				for _, kb := range k2s {
+					a, b := sites[t1][ka], sites[t2][kb]
+					if a.ev.Loc != b.ev.Loc || (!isW(a.ev) && !isW(b.ev)) || (a.ev.Atomic && b.ev.Atomic) {
+						continue
+					}
+					res.RacePairs++
+					st.Reached++
+					st.Posed++
+					st.Nontrivial++
+					st.Pos[siteOf(a.ev.Pos)+" / "+siteOf(b.ev.Pos)] = true
+					combo := make([]*ThreadPath, nThreads)
+					for t := 1; t <= nThreads; t++ {
+						if c.threads[t].Parent == 0 && len(c.threads[t].Paths) > 0 {
+							combo[t-1] = c.threads[t].Paths[0]
+						}
+					}
+					combo[t1-1], combo[t2-1] = a.path, b.path
+					res.ConcCombos++
+					ex.raceCombo(combo, final, a.ev, b.ev, st)
+				}
+			}
+		}
+	}
+}
+
+// raceCombo poses the adjacency query for two specific events on one combination.
+func (ex *Exec) raceCombo(combo []*ThreadPath, final *ThreadPath, a, b *Event, st *OblStat) {
+	c := ex.conc
+	res := ex.sess.res
+	var events []*Event
+	for _, p := range combo {
+		if p != nil {
+			events = append(events, p.Events...)
+		}
+	}
+	res.Events += len(events)
+	var sb strings.Builder
+	for _, e := range events {
+		fmt.Fprintf(&sb, "(declare-const %s Int)\n", ex.clk(e))
+	}
+	lt := func(x, y *Event) string { return "(< " + ex.clk(x) + " " + ex.clk(y) + ")" }
+	names := make([]string, len(events))
+	for i, e := range events {
+		names[i] = ex.clk(e)
+		fmt.Fprintf(&sb, "(assert (and (<= 1 %s) (<= %s %d)))\n", ex.clk(e), ex.clk(e), len(events))
+	}
+	if len(events) > 1 {
+		fmt.Fprintf(&sb, "(assert (distinct %s))\n", strings.Join(names, " "))
+	}
+	for _, p := range combo {
+		if p == nil {
+			continue
+		}
+		for i := 1; i < len(p.Events); i++ {
+			fmt.Fprintf(&sb, "(assert %s)\n", lt(p.Events[i-1], p.Events[i]))
+		}
+	}
+	// mutual exclusion of critical sections
+	var secs []*lockSection
+	for ti, p := range combo {
+		if p == nil {
+			continue
+		}
+		open := map[string][]*lockSection{}
+		for _, e := range p.Events {
+			switch e.Kind {
+			case "lock", "rlock":
+				s := &lockSection{thread: ti, lock: e, read: e.Kind == "rlock"}
+				open[e.Loc] = append(open[e.Loc], s)
+				secs = append(secs, s)
+			case "unlock", "runlock":
+				if l := open[e.Loc]; len(l) > 0 {
+					l[len(l)-1].unl = e
+					open[e.Loc] = l[:len(l)-1]
+				}
+			}
+		}
+	}
+	for i := 0; i < len(secs); i++ {
+		for j := i + 1; j < len(secs); j++ {
+			x, y := secs[i], secs[j]
+			if x.lock.Loc != y.lock.Loc || x.thread == y.thread || (x.read && y.read) {
+				continue
+			}
+			var alts []string
+			if x.unl != nil {
+				alts = append(alts, lt(x.unl, y.lock))
+			}
+			if y.unl != nil {
+				alts = append(alts, lt(y.unl, x.lock))
+			}
+			if len(alts) == 0 {
+				sb.WriteString("(assert false)\n")
+			} else {
+				fmt.Fprintf(&sb, "(assert (or %s))\n", strings.Join(alts, " "))
+			}
+		}
+	}
+	fmt.Fprintf(&sb, "(assert (or (= %s (+ %s 1)) (= %s (+ %s 1))))\n", ex.clk(a), ex.clk(b), ex.clk(b), ex.clk(a))
+	solver := ex.sess.solver
+	solver.Send("(reset)\n" + sb.String())
+	t0 := time.Now()
+	ans := solver.CheckSat(ex.sess.oblTO)
+	res.Queries++
+	res.SolverTime += time.Since(t0)
+	st.SolverMs += float64(time.Since(t0)) / 1e6
+	if ans == "unsat" {
+		st.Discharged++
+		return
+	}
+	if ans != "sat" {
+		res.Inconclusive = append(res.Inconclusive, fmt.Sprintf("%s: race query: solver answered %s", ex.h.Name, firstLine(ans)))
+		return
+	}
+	ra := recAssert{ID: "data-race-free", Kind: "race", Pos: a.Pos + " / " + b.Pos}
+	ra.Msg = fmt.Sprintf("data race on %s: %s %s at %s [%s]  vs  %s %s at %s [%s]", a.Loc, c.threads[a.Thread].Name, a.Kind, a.Pos, strings.Join(a.Held, ","),
+		c.threads[b.Thread].Name, b.Kind, b.Pos, strings.Join(b.Held, ","))
+	r := NewRenderer(ex.h.Mode)
+	cand := ex.concCandidate(solver, r, ra, events, combo)
+	sa, sb2 := siteOf(a.Pos), siteOf(b.Pos)
+	if sb2 < sa {
+		sa, sb2 = sb2, sa
+	}
+	cand.Classes = map[string]bool{"race_site:" + sa + "|" + sb2: true}
+	if st.Sample == "" {
+		st.Sample = ra.Msg
+	}
+	cand.Known = matchKnown(ex.sess.known, cand)
+	res.Candidates = append(res.Candidates, cand)
 }
